@@ -97,10 +97,17 @@ def _j(x):
 _WORK = {}
 
 
+DEADLINE = [None]
+
+
 def _call(args):
     i, name, chunk = args
     fn = _WORK[name]
     t0 = time.time()
+    if DEADLINE[0] is not None and t0 > DEADLINE[0]:
+        r = Res()
+        r.caps.append('deadline reached: chunk %r of %s not explored' % (i, name.split('.')[-1]))
+        return i, r
     try:
         r = fn(chunk)
     except BaseException as e:  # harness error: never hidden
@@ -124,6 +131,8 @@ class Ctx:
         self.level = 'model_checking'
         self.vacuity = []   # (name, ok) guards
         self.quick = (tier == 'quick')
+        # a safety net for trees on which calls became pathologically slow: what was found so far is reported
+        DEADLINE[0] = self.t0 + float(os.environ.get('VERIF_DEADLINE_S', '1500' if self.quick else '21600'))
 
     def log(self, *a):
         print('[%s %6.1fs]' % (self.pid, time.time() - self.t0), *a, file=sys.stderr, flush=True)
